@@ -50,6 +50,8 @@ type WConfig struct {
 	MaxBlockFileSize uint32 `json:"max_block_file_size"`
 	LdbCacheBytes    uint64 `json:"ldb_cache_bytes"`
 	FlushSecs        uint32 `json:"flush_secs"`
+	// Prune is the block-storage target in bytes (0 = keep everything); only used with small block files
+	Prune uint64 `json:"prune,omitempty"`
 }
 
 func (w *Workload) save(path string) error {
